@@ -266,6 +266,7 @@ func VH_FRAG_r2() {
 	kind := vConcretize(int(vNondetU8("kind")) % vKinds2())
 	z, data := vLZMA2(kind)
 	frag := vConcretize(int(vNondetU8("frag")) % 4)
+	vAssume((kind*4+frag)%vShards() == vShardIdx())
 	r, err := Reader2Config{DictCap: 4096}.NewReader2(&vSrc{data: z, end: len(z), frag: frag})
 	vAssert(err == nil, "valid stream opens under any fragmentation")
 	nsym := 3
@@ -286,6 +287,7 @@ func VH_FRAG_lzma() {
 	kind := vConcretize(int(vNondetU8("kind")) % vKindsL())
 	z, data := vLZMA(kind)
 	frag := vConcretize(int(vNondetU8("frag")) % 4)
+	vAssume((kind*4+frag)%vShards() == vShardIdx())
 	r, err := NewReader(&vSrc{data: z, end: len(z), frag: frag})
 	vAssert(err == nil, "valid stream opens under any fragmentation")
 	nsym := 3
